@@ -9,7 +9,8 @@ the (acyclic) call graph; selected functions are replaced by proved summaries.
 Nothing is executed and no solver is involved: every decision is a domain
 operation (interval evaluation, fact lookup, congruence arithmetic).
 """
-from .db import INT_RANGES, norm_path
+import re
+from .db import INT_RANGES, norm_path, strip_lt
 from .poly import (Atoms, padd, patom, pcanon, pconst, pfreeze, pis_const, plinear_single, pmul, pneg, pscale,
                    pthaw, patoms)
 
@@ -1361,6 +1362,16 @@ class Interp:
             return Opaque(c.get('ty', '&[u8]'), ('bytes', tuple(c['bytes'])))
         if ty in ('&str', "&'static str"):
             return SliceVal(st.fresh('usize', 0, 2**40, 'strlen'), 'str')
+        # associated constant of a generic parameter: <Self as Trait>::NAME resolved through the frame's substitution
+        m = re.match(r'^<(\w+) as ([\w:]+)>::(\w+)$', str(c.get('opaque')))
+        if m and fr is not None and fr.gsubst and m.group(1) in fr.gsubst:
+            self_ty = strip_lt(fr.gsubst[m.group(1)])
+            for im in (self.db.impls.values() if isinstance(self.db.impls, dict) else self.db.impls):
+                tr = im.get('trait') or ''
+                if im.get('self') == self_ty and (tr == m.group(2) or tr.endswith('::' + m.group(2)) or tr.endswith(m.group(2))):
+                    for cst in im.get('consts') or []:
+                        if cst['name'] == m.group(3) and cst.get('value'):
+                            return self.const_value(st, fr, cst['value'])
         return Opaque(ty, str(c.get('opaque'))[:40])
 
     def promoted(self, st, fid, idx):
@@ -1691,12 +1702,31 @@ class Interp:
             return pconst(q)
         if cb is not None and A and all(v % cb == 0 for v in A.values()):
             return {m_: v // cb for m_, v in A.items()}       # exact division of the term
+        if cb is not None and cb > 1 and sa == 1 and len(A) > 1:
+            # floor((c*A1 + A2) / c) = A1 + floor(A2 / c): split off the part of the dividend that is a multiple of the divisor
+            A1 = {m_: v // cb for m_, v in A.items() if v % cb == 0 and m_ != ()}
+            if A1:
+                A2 = {m_: v for m_, v in A.items() if not (v % cb == 0 and m_ != ())}
+                a2lo, a2hi = st.range_of(A2) if A2 else (0, 0)
+                if a2lo is not None and a2hi is not None and a2lo >= 0 and a2hi < cb:
+                    return A1
+                if a2lo is not None and a2lo >= 0 and len(A2) < len(A):
+                    return padd(A1, self.tdiv_atom(st, st.norm(A2), B))
         if st.tactics is not None and cb is None and sb == 1:
             lsb = plinear_single(B)
             if lsb is not None and lsb[1] == 1 and lsb[2] == 0 and lsb[0] not in st.tactics['mult']:
                 st.tactics = dict(st.tactics, mult=list(st.tactics['mult']) + [lsb[0]])      # a positive divisor atom
         desc = ('tdiv', pfreeze(A), pfreeze(B))
         known = st.atoms.lookup(desc)
+        if known is None and st.subst:
+            # the same quotient may already exist under the name it got before an atom of its dividend was substituted
+            fa, fb = pfreeze(A), pfreeze(B)
+            for i_, d_ in enumerate(st.atoms.desc):
+                if d_[0] == 'tdiv' and i_ in st.bounds and i_ not in st.subst and (d_[2] == fb or pfreeze(st.norm(pthaw(d_[2]))) == fb):
+                    if pfreeze(st.norm(pthaw(d_[1]))) == fa:
+                        desc = d_
+                        known = i_
+                        break
         T = st.atoms.get(desc)
         Tp = patom(T)
         R = padd(A, pmul(B, Tp), -1)        # remainder A - B*T
@@ -1889,6 +1919,13 @@ class Interp:
                     m_, r_ = st.cong_poly(st.norm(x.p))
                     if (m_ == 0 and r_ % (1 << k) == 0) or (m_ > 0 and m_ % (1 << k) == 0 and r_ % (1 << k) == 0):
                         return self.mk(st, ty, padd(x.p, y_.p), xlo + ylo, xhi + yhi)
+        if op == 'BitOr':
+            # x | 1: x if x is odd, x + 1 if even (parity decided on the path, forks)
+            for x, y_ in ((a, b), (b, a)):
+                if st.itv(y_) == (1, 1) and st.itv(x)[0] >= 0:
+                    r = self.divrem(st, 'Rem', x, K(2, x.ty), x.ty)
+                    odd = st.decide(r.p, [ZERO, POS | NEG])
+                    return x if odd == 1 else self.mk(st, ty, padd(x.p, pconst(1)))
         ta, tb = self.tnum(st, a), self.tnum(st, b)
         if ta is None or tb is None:
             return st.fresh(ty, tag='bits')
@@ -1951,6 +1988,8 @@ class Interp:
                 raise Stop('cast to %s' % to)
             rlo, rhi = INT_RANGES[to]
             lo, hi = st.itv(x)
+            if x.ty == 'bool' and to != 'bool' and lo != hi:
+                return K(int(st.truth(x)), to)          # a flag used as a number: decide it (forks)
             if rlo <= lo and hi <= rhi:
                 return Int(to, lo, hi, x.p, x.cond if to == 'bool' else None)
             # constant: wrap exactly
@@ -1966,6 +2005,8 @@ class Interp:
         if kind.startswith('IntToFloat') or kind.startswith('FloatToInt') or kind.startswith('FloatToFloat'):
             if to in INT_RANGES:
                 return st.fresh(to, tag='fcast')
+            if kind.startswith('IntToFloat') and isinstance(x, Int):
+                return Agg('floatcast:' + to, None, (x,))        # the primitive cast of an integer term (rounding: Rust semantics)
             return Opaque(to, 'float')
         raise Stop('cast %s' % kind)
 
